@@ -105,6 +105,10 @@ func (w *stressWorld) engine(mode string) *twig.Engine {
 		twig.VerifSetAttrCacheMax(3)
 	case "cacheoff":
 		e.SetCache(false)
+	case "debug":
+		// (the debug level and its bookkeeping are process-wide: overlapping renders share them)
+		e.SetDebug(true)
+		twig.SetDebugWriter(io.Discard)
 	case "autoreload":
 		e.SetAutoReload(true)
 	}
